@@ -66,7 +66,7 @@ Step ==
                       ELSE (IF e.kind # "value" THEN Flag("C16.UnregisteredObjectNotByValue_" \o e.kind) ELSE bad)
        [] e.a = "urifor" ->
             /\ UNCHANGED <<reg, held>>
-            /\ bad' = IF R!Registered(reg, e.o) /\ e.id # R!IdOf(reg, e.o) THEN Flag("C16.UriForWrong")
+            /\ bad' = IF R!Registered(reg, e.o) /\ ~(e.id \in DOMAIN reg /\ reg[e.id].obj = e.o) THEN Flag("C16.UriForWrong")
                       ELSE IF ~R!Registered(reg, e.o) /\ e.id # "" THEN Flag("C16.UriForUnregisteredObject") ELSE bad
        [] OTHER -> UNCHANGED <<reg, held>> /\ bad' = Flag("Monitor.UnknownEvent")
 Spec == Init /\ [][Step]_vars
